@@ -111,6 +111,7 @@ func Corpus(tier string, seed int64) []Inst {
 	add(Ptr(NStruct("Unexp", F("a", B("int")), F("b", B("string")), F("C", Ptr(B("int"))))))
 	add(Ptr(NStruct("Emb", F("Leaf", leaf), F("X", B("int")))))
 	add(Ptr(NStruct("Empty")))
+	add(Ptr(NStruct("Blank", F("A", B("int")), F("_", B("int")), F("C", B("string"))))) // a blank field cannot be referred to
 	// depth 2 by composition over representative leaves
 	reps := []*Ty{B("int"), Ptr(leaf)}
 	if tier != "quick" {
@@ -162,6 +163,9 @@ func Corpus(tier string, seed int64) []Inst {
 	np := Named("NPar", B("int"))
 	np.UserEqualVal = true
 	add(Ptr(NStruct("HasUEqV", F("V", uv), F("P", Ptr(uv)), F("N", np), F("X", B("int")))))
+	// ... and hidden inside comparable composites that have no Equal of their own (array, wrapper struct)
+	add(Ptr(NStruct("HasArrUEq", F("A", Array(2, uv)), F("L", Slice(B("int"))))))
+	add(Ptr(NStruct("HasWrapUEq", F("W", NStruct("WrapU", F("In", uv))), F("X", B("int")))))
 	add(Slice(uv))
 	add(Map(B("string"), np))
 	add(Array(2, uv))
